@@ -16,7 +16,8 @@ PROPS = {
     "C04": ["SrcPrivate", "SrcStable", "OwnerOnly", "OnePerClient", "CreateOnce", "CreateOnlyValid"],
     "C14": ["NoEarlyRemoval", "ReclaimedInTime", "ShutdownReclaimed", "RemoveOnce", "DeadlineMonotone", "WriteExtends",
             "NoEarlyClose", "CloseOnce", "FastCloseRule"],
-    "C16": ["MetricsLanguage", "PktCSound", "PktTSound", "PktCPerDatagram", "PktTPerReply", "RemoveOnce", "CreateOnce"],
+    "C16": ["MetricsLanguage", "CreateOnce", "CreateOnlyValid", "PktCSound", "PktTSound", "PktCPerDatagram", "PktTPerReply", "RemoveOnce",
+            "ShutdownReclaimed"],
 }
 ALL_PROPS = sorted({p for v in PROPS.values() for p in v})
 
@@ -83,6 +84,49 @@ def gen(ctx, cfg, num, seed=None, depth=400):
     return behs
 
 
+def capped_env(extra=None):
+    """environment of every driver child: soft Go heap limit + the driver's own 3 GiB RSS watchdog (see
+    startMemoryWatchdog in harness/cmd/udpnat/common.go); run_capped() adds an external watchdog on top"""
+    e = {"GOMEMLIMIT": "2GiB", "VERIF_MEM_LIMIT_MB": "3072"}
+    e.update(extra or {})
+    return vlib.goenv(extra=e)
+
+
+def _rss_mb(pid):
+    try:
+        with open("/proc/%d/statm" % pid) as f:
+            return int(f.read().split()[1]) * (os.sysconf("SC_PAGE_SIZE") // 1024) // 1024
+    except Exception:
+        return 0
+
+
+def run_capped(cmd, env=None, timeout=900, limit_mb=4096):
+    """Like vlib.run, plus an external memory watchdog: the child is killed (Inconclusive) above limit_mb resident."""
+    p = subprocess.Popen(cmd, env=env or capped_env(), stdout=subprocess.PIPE, stderr=subprocess.PIPE, text=True)
+    import threading
+    killed = {}
+
+    def watch():
+        while p.poll() is None:
+            m = _rss_mb(p.pid)
+            if m > limit_mb:
+                killed["mb"] = m
+                p.kill()
+                return
+            time.sleep(0.2)
+    th = threading.Thread(target=watch, daemon=True)
+    th.start()
+    try:
+        out, err = p.communicate(timeout=timeout)
+    except subprocess.TimeoutExpired:
+        p.kill()
+        p.communicate()
+        raise vlib.Inconclusive("driver timeout after %ss: %s" % (timeout, " ".join(cmd[:3])))
+    if killed:
+        raise vlib.Inconclusive("driver killed by the memory watchdog at %d MiB resident: %s" % (killed["mb"], " ".join(cmd[:3])))
+    return p.returncode, out, err
+
+
 _drv = {}
 
 
@@ -112,7 +156,21 @@ def run_real(ctx, behs, name, prom=False, procs=None, timeout=900):
         cmd = [drv, "replay", "-in", bf, "-out", tf, "-summary", sf, "-seed", str(ctx.seed * 1000 + i), "-from", str(lo), "-to", str(hi)]
         if prom:
             cmd.append("-prom")
-        ps.append((subprocess.Popen(cmd, env=vlib.goenv(), stdout=subprocess.PIPE, stderr=subprocess.PIPE, text=True), tf, sf, lo, hi))
+        ps.append((subprocess.Popen(cmd, env=capped_env(), stdout=subprocess.PIPE, stderr=subprocess.PIPE, text=True), tf, sf, lo, hi))
+    import threading
+    over = {}
+
+    def watch():
+        while any(q[0].poll() is None for q in ps):
+            for q in ps:
+                if q[0].poll() is None and _rss_mb(q[0].pid) > 4096:
+                    over["pid"] = q[0].pid
+                    for z in ps:
+                        if z[0].poll() is None:
+                            z[0].kill()
+                    return
+            time.sleep(0.2)
+    threading.Thread(target=watch, daemon=True).start()
     trace = os.path.join(d, "trace.ndjson")
     sums = []
     t0 = time.time()
@@ -124,6 +182,8 @@ def run_real(ctx, behs, name, prom=False, procs=None, timeout=900):
                 for q in ps:
                     q[0].kill()
                 raise vlib.Inconclusive("udpnat replay driver timeout (%s)" % name)
+            if over:
+                raise vlib.Inconclusive("udpnat replay driver killed by the memory watchdog (above 4 GiB resident) (%s)" % name)
             if p.returncode != 0:
                 for q in ps:
                     q[0].kill()
